@@ -1,4 +1,5 @@
 """Driver library of /verif/check (see ./check --help and DESIGN.md)."""
+import tempfile
 import sys, os, json, time, subprocess, hashlib, fcntl, shutil, re, glob, random, gzip
 
 VERIF = os.path.dirname(os.path.dirname(os.path.abspath(__file__)))
@@ -601,17 +602,24 @@ def _run_parallel(jobs, maxpar):
             key, cmd, cwd, env, to = queue.pop(0)
             e = dict(os.environ)
             e.update(env or {})
-            p = subprocess.Popen(cmd, cwd=cwd, env=e, stdout=subprocess.PIPE, stderr=subprocess.STDOUT, text=True)
+            # output goes to a file: a child that prints more than a pipe holds (TLC error traces) must not block
+            of = tempfile.TemporaryFile(mode="w+", dir=RUN if RUN and os.path.isdir(RUN) else None)
+            p = subprocess.Popen(cmd, cwd=cwd, env=e, stdout=of, stderr=subprocess.STDOUT, text=True)
+            p._outfile = of
             running.append((key, p, time.time(), to))
         time.sleep(0.05)
         for it in list(running):
             key, p, t0, to = it
-            if p.poll() is not None:
-                res[key] = (p.returncode, p.stdout.read(), False)
-                running.remove(it)
-            elif time.time() - t0 > to:
+            done = p.poll() is not None
+            timed_out = (not done) and time.time() - t0 > to
+            if timed_out:
                 p.kill()
-                res[key] = (-9, p.stdout.read(), True)
+                p.wait()
+            if done or timed_out:
+                p._outfile.seek(0)
+                out = p._outfile.read()
+                p._outfile.close()
+                res[key] = ((-9 if timed_out else p.returncode), out[-2000000:], timed_out)
                 running.remove(it)
     return res
 
